@@ -16,7 +16,8 @@ from mc import boot  # noqa: F401
 
 from mc import catalog
 
-MAX_ALPHABET = 128
+MAX_ALPHABET = 128  # up to this size every single-step deviation is explored
+MAX_FULL = 10_000  # up to this size the base schedules are run (0 deviations)
 
 
 def cfgs(tier: str) -> List[catalog.Cfg]:
@@ -34,13 +35,12 @@ def tasks(pid: str, tier: str, seed: int, families=None) -> List[Any]:
             continue
         if only_f and c.family not in only_f.split(","):
             continue
-        if only_m and (c.name + "@modeB") not in only_m.split(","):
+        if only_m and not any(m.startswith(c.name + "@modeB") for m in only_m.split(",")):
             continue
         first = c.modeb or "first"
-        out.append(("mc.checks.modeb", "explore", dict(pid=pid, cfg_name=c.name, tier=tier, seed=seed, which=first)))
-        if tier == "thorough":
-            other = "last" if first == "first" else "first"
-            out.append(("mc.checks.modeb", "explore", dict(pid=pid, cfg_name=c.name, tier=tier, seed=seed, which=other)))
+        whiches = [first, "stride"] if tier == "quick" else sorted({first, "first", "last", "stride"})
+        for w in whiches:
+            out.append(("mc.checks.modeb", "explore", dict(pid=pid, cfg_name=c.name, tier=tier, seed=seed, which=w)))
     return out
 
 
@@ -52,11 +52,14 @@ def explore(pid: str, cfg_name: str, tier: str, seed: int, which: str = "first")
 
     cfg = catalog.BY_NAME[cfg_name]
     env = cfg.make()
-    name = f"{cfg_name}@modeB" + ("" if which == "first" else "-last")
+    name = f"{cfg_name}@modeB" + ("" if which == "first" else "-" + which)
     try:
-        A = all_actions(env.action_spec, cap=MAX_ALPHABET)
+        A = all_actions(env.action_spec, cap=MAX_FULL)
     except ValueError as e:
         return {"model": name, "skipped": f"joint alphabet too large for mode B ({e})", "states": 0, "transitions": 0}
+    # large alphabets: only the base schedule itself (0 deviations) is run to termination
+    dev_bound = 1 if len(A) <= MAX_ALPHABET else 0
+    holder: Dict[str, Any] = {}
     ref = refmon.load_ref(cfg.family)
     mod = importlib.import_module(f"mc.checks.{pid.lower()}")
     plan = mod.plan(cfg, env, tier)
@@ -65,7 +68,7 @@ def explore(pid: str, cfg_name: str, tier: str, seed: int, which: str = "first")
     monitors = plan.pop("monitors")
     pre = plan.pop("pre", None)
     legal_only = "enabled_fn" in plan
-    order = range(len(A)) if which == "first" else range(len(A) - 1, -1, -1)
+    order = range(len(A) - 1, -1, -1) if which == "last" else range(len(A))
 
     def policy(parents: Any, actions: np.ndarray) -> np.ndarray:
         out = np.zeros(len(parents), np.int64)
@@ -75,14 +78,22 @@ def explore(pid: str, cfg_name: str, tier: str, seed: int, which: str = "first")
                 out[i] = 0 if which == "first" else len(actions) - 1
                 continue
             mask = refmon.get_mask(ref, env, obs)
+            allowed = []
             for j in order:
                 try:
                     ok = refmon.mask_allows(ref, env, mask, actions[j])
                 except Exception:  # noqa: BLE001 - out-of-domain joint action
                     ok = False
                 if ok:
-                    out[i] = j
-                    break
+                    allowed.append(j)
+                    if which != "stride":
+                        break
+            if allowed:
+                if which == "stride":  # deterministic spread over the legal set: rank (7*depth+3) mod #legal
+                    d = holder["ex"].depth[int(parents.ids[i])]
+                    out[i] = allowed[(7 * d + 3) % len(allowed)]
+                else:
+                    out[i] = allowed[0]
         return out
 
     kw = dict(
@@ -91,7 +102,7 @@ def explore(pid: str, cfg_name: str, tier: str, seed: int, which: str = "first")
         max_states=8_000 if tier == "quick" else 100_000,
         max_transitions=400_000 if tier == "quick" else 6_000_000,
         time_budget_s=45.0 if tier == "quick" else 600.0,
-        deviation_bound=1,
+        deviation_bound=dev_bound,
         policy_fn=policy,
         seed=seed,
         ctor=cfg.ctor,
@@ -104,11 +115,13 @@ def explore(pid: str, cfg_name: str, tier: str, seed: int, which: str = "first")
     if "post_terminal" in plan:
         kw["post_terminal"] = plan["post_terminal"]
     ex = Explorer(env, name, pid, monitors=monitors, **kw)
+    holder["ex"] = ex
     if pre is not None:
         pre(ex)
     res = ex.run()
     res["family"] = cfg.family
     res["kind"] = "modeB"
-    res["deviation_bound"] = 1
-    res["base_schedule"] = f"{which} masked-in action"
+    res["deviation_bound"] = dev_bound
+    res["base_schedule"] = {"first": "first masked-in action", "last": "last masked-in action",
+                            "stride": "masked-in action of rank (7*depth+3) mod #legal"}[which]
     return res
